@@ -121,8 +121,9 @@ def find_units(f, name):
     return None
 
 
-def edges(world, fname, kind, e, dangling_ok):
-    """[(is_import_edge, (file, kind, name))] or None when a target does not exist"""
+def edges(world, fname, kind, e, dangling_ok, origin=None):
+    """[(is_import_edge, (file, kind, name))] or None when a target does not exist; the units that a component of the
+    origin itself uses are the origin's own business (resolution only looks at what is imported)"""
     f = world[fname]
     if e['imp']:
         url, ref = e['imp']
@@ -135,7 +136,7 @@ def edges(world, fname, kind, e, dangling_ok):
         # an imported component may encapsulate components of its own
         return [(True, (url, kind, ref))] + ([(False, (fname, 'c', k['name'])) for k in e['kids']] if kind == 'c' else [])
     out = []
-    refs = [('u', k) for k in e['kids']] if kind == 'u' else [('c', k['name']) for k in e['kids']] + [('u', un) for un in e['units']]
+    refs = [('u', k) for k in e['kids']] if kind == 'u' else [('c', k['name']) for k in e['kids']] + ([] if fname == origin else [('u', un) for un in e['units']])
     for kd, k in refs:
         if k == STD:
             continue
@@ -163,7 +164,7 @@ def resolvable(world, origin, dangling_ok=False):
         k = stack.pop()
         if k in graph:
             continue
-        es = edges(world, k[0], k[1], entity(world, k), dangling_ok and k[0] != origin)
+        es = edges(world, k[0], k[1], entity(world, k), dangling_ok and k[0] != origin, origin)
         if es is None:
             return False
         graph[k] = es
@@ -193,7 +194,7 @@ def entity_cycle(world, origin):
         k = stack.pop()
         if k in graph:
             continue
-        graph[k] = edges(world, k[0], k[1], entity(world, k), True) or []
+        graph[k] = edges(world, k[0], k[1], entity(world, k), True, origin) or []
         stack += [t for _, t in graph[k]]
     def reach(src):
         seen, st = set(), [src]
@@ -304,7 +305,7 @@ def unvisited_imports(world, origin):
             continue
         seen.add(k)
         e = entity(world, k)
-        es = edges(world, k[0], k[1], e, True)
+        es = edges(world, k[0], k[1], e, True, origin)
         for _, t in (es or []):
             stack.append(t)
     return sorted(k for k in seen if entity(world, k)['imp'] and k not in visited)
